@@ -13,7 +13,7 @@ def run(tier):
         'contractual size); a case is non-trivial when the callee accepted the input / produced output at least once')
     rep.assumptions = ['ASan (gcc, -O1) sees every access of the compiled liblcb sources and of libc mem*/str* calls',
                        'a call that burns >= 20 ms of CPU is non-terminating (normal calls take microseconds)',
-                       'bt_en_decode/nesting-depth uses an 8 MiB thread stack (Linux default)']
+                       'bt_en_decode/nesting-depth decodes in a forked child on an 8 MiB thread stack (Linux default)']
     b = build()
-    core.run_sharded(rep, b, tier, hang_s=30)
+    core.run_sharded(rep, b, tier, hang_s=120)
     rep.finish(core.make_replayer(lambda cfg: b, tier))
